@@ -22,7 +22,7 @@ Say(tid, v) == PrintT(<<"VERDICT", tid, v>>)
 St0(N) == [taint |-> [vn \in VarNames |-> {}], cc |-> [vn \in VarNames |-> 0],
            stamp |-> [vn \in VarNames |-> [L \in LoopIds |-> 0]], it |-> [L \in LoopIds |-> 0],
            last |-> [i \in 1..N |-> NoObj], linf |-> [i \in 1..N |-> NoT], hot |-> {}, stmt |-> 0, matched |-> {},
-           tact |-> {}, wact |-> {}, jact |-> {}, tmut |-> [T \in LoopIds |-> {}], brk |-> [T \in LoopIds |-> {}]]
+           tact |-> {}, wact |-> {}, jact |-> {}, pend |-> {}, tmut |-> [T \in LoopIds |-> {}], brk |-> [T \in LoopIds |-> {}]]
 
 Known2(a, b) == a # NoObj /\ b # NoObj
 MaxOf(S) == IF S = {} THEN 0 ELSE CHOOSE m \in S : \A k \in S : k <= m
@@ -53,14 +53,18 @@ VariadicSource(st, nd, ev) ==
 AfterEval(st, ev, nd) ==
     LET st1 == IF nd.s # st.stmt THEN [st EXCEPT !.hot = {}, !.stmt = nd.s] ELSE st
         add == (IF NumericSource(st1, nd, ev.v) THEN {KeyNumeric} ELSE {}) \cup (IF CrossEqSource(st1, nd, ev.v) THEN {KeyCrossEq} ELSE {})
-               \cup (IF nd.k = "Name" /\ Dev_AbstractTruthy(ev.v, ev.i) THEN {KeyAbsTruthy} ELSE {})
+               \cup (IF nd.k \in {"Name", "NamedExpr"} /\ ev.i.k = "any" THEN {KeyAny} ELSE {})
+        \* a falsy object whose static type is assumed always truthy was evaluated: the checker considers the path the
+        \* execution takes from here (loop not entered, else branch) impossible, its state describes the other path
+        absT == Dev_AbstractTruthy(ev.v, ev.i)
         rd == SeqToSet(nd.r)
     IN [st1 EXCEPT !.last[ev.n] = ev.v, !.linf[ev.n] = ev.i,
-                   !.taint = [vn \in VarNames |-> IF vn \in rd THEN @[vn] \cup add ELSE @[vn]],
+                   !.taint = [vn \in VarNames |-> (IF vn \in rd THEN @[vn] \cup add ELSE @[vn]) \cup (IF absT THEN {KeyAbsTruthy} ELSE {})],
                    !.hot = @ \cup (IF TupleAddSource(st1, nd, ev) THEN {<<KeyTupleAdd, ev.n>>} ELSE {})
                              \cup (IF nd.err THEN {<<KeyRejected, ev.n>>} ELSE {})
                              \cup (IF VariadicSource(st1, nd, ev) THEN {<<KeyVariadic, ev.n>>} ELSE {})
-                             \cup (IF Dev_AbstractTruthy(ev.v, ev.i) THEN {<<KeyAbsTruthy, ev.n>>} ELSE {})]
+                             \cup (IF absT THEN {<<KeyAbsTruthy, ev.n>>} ELSE {})
+                             \cup (IF ev.i.k = "any" THEN {<<KeyAny, ev.n>>} ELSE {})]
 
 HotKeys(st, S) == {h[1] : h \in {hh \in st.hot : hh[2] \in S}}
 NodeTaint(st, nd, ni) == UNION {st.taint[r] : r \in SeqToSet(nd.r)} \cup HotKeys(st, SeqToSet(nd.d) \cup {ni})
@@ -95,9 +99,19 @@ Caught(st, T) == IF T \in st.tact
 
 WithLeft(st, T) == [st EXCEPT !.taint = [vn \in VarNames |-> IF vn \in st.brk[T] THEN @[vn] \cup {KeyBreakSupp} ELSE @[vn]]]
 
-Step(st, ev, o) ==
+\* A case pattern with a guard matched and bound its capture names (store with via = "guard"); the body of the case was
+\* not entered (no cb event followed): the guard failed, the names stay bound (CPython), but the checker bound them in the
+\* scope of that case only.
+Finalize(st) == [st EXCEPT !.pend = {},
+                           !.taint = [vn \in VarNames |-> IF vn \in st.pend THEN @[vn] \cup {KeyGuardCapture} ELSE @[vn]]]
+StoreEv(st, s) == LET st1 == AfterStore(st, s) IN IF s.via = "guard" THEN [st1 EXCEPT !.pend = SeqToSet(s.names)] ELSE st1
+
+Step(st0, ev, o) ==
+    LET st == IF ev.k \notin {"e", "cb"} THEN Finalize(st0) ELSE st0 IN
     CASE ev.k = "e" -> AfterEval(st, ev, o.nodes[ev.n])
-      [] ev.k = "s" -> AfterStore(st, o.stores[ev.site])
+      [] ev.k = "s" -> StoreEv(st, o.stores[ev.site])
+      [] ev.k = "cb" -> [st EXCEPT !.pend = {}]
+      [] ev.k = "mx" -> st
       [] ev.k = "le" -> [st EXCEPT !.it[ev.loop] = 0]
       [] ev.k = "it" -> [st EXCEPT !.it[ev.loop] = @ + 1]
       [] ev.k = "lx" -> [st EXCEPT !.it[ev.loop] = 0]
@@ -130,10 +144,12 @@ Step(st, ev, o) ==
                         ELSE st
 
 \* verdict for the unsound judged event ev (index i); st = state after the event's own sources were applied
-Classify(tid, i, st, ev, nd) ==
+Classify(o, i, st, ev, nd) ==
     LET tn == NodeTaint(st, nd, ev.n)
+        tid == o.tid
     IN IF KeyRejected \in tn THEN Say(tid, "dom:" \o KeyRejected \o ":" \o ToString(i))
        ELSE IF KeyVariadic \in tn THEN Say(tid, "dom:" \o KeyVariadic \o ":" \o ToString(i))
+       ELSE IF KeyAny \in tn /\ ev.i.k # "any" THEN Say(tid, "dom:" \o KeyAny \o ":" \o ToString(i))
        ELSE IF KeyCrossEq \in tn /\ ContainsNumeric(ev.v) THEN Say(tid, "dom:" \o KeyCrossEq \o ":" \o ToString(i))
        ELSE IF KeyNumeric \in tn /\ ContainsNumeric(ev.v) THEN Say(tid, "dev:" \o KeyNumeric \o ":" \o ToString(i))
        ELSE IF Dev_LoopCarried(st, SeqToSet(nd.r)) THEN Say(tid, "dev:" \o KeyLoop \o ":" \o ToString(i))
@@ -143,6 +159,9 @@ Classify(tid, i, st, ev, nd) ==
        ELSE IF KeyExtendKnown \in tn THEN Say(tid, "dev:" \o KeyExtendKnown \o ":" \o ToString(i))
        ELSE IF KeyMutLost \in tn THEN Say(tid, "dev:" \o KeyMutLost \o ":" \o ToString(i))
        ELSE IF KeyBreakSupp \in tn THEN Say(tid, "dev:" \o KeyBreakSupp \o ":" \o ToString(i))
+       ELSE IF KeyGuardCapture \in tn THEN Say(tid, "dev:" \o KeyGuardCapture \o ":" \o ToString(i))
+       ELSE IF nd.wt THEN Say(tid, "dev:" \o KeyWhileElse \o ":" \o ToString(i))
+       ELSE IF Dev_KnownListMutated(o.stores, SeqToSet(nd.r), ev.i) THEN Say(tid, "dev:" \o KeyKnownList \o ":" \o ToString(i))
        ELSE IF KeyAbsTruthy \in tn THEN Say(tid, "dev:" \o KeyAbsTruthy \o ":" \o ToString(i))
        ELSE IF ev.i = Never THEN Say(tid, "viol:NeverIsNeverReached:" \o ToString(i))
        ELSE Say(tid, "viol:Sound:" \o ToString(i))
@@ -152,7 +171,7 @@ Fold(o, i, st) ==
     IF i > Len(o.ev) THEN TRUE
     ELSE LET ev == o.ev[i]
              st2 == Step(st, ev, o)
-         IN /\ IF ev.k = "e" /\ ev.j /\ ~Sound(ev) THEN Classify(o.tid, i, st2, ev, o.nodes[ev.n]) ELSE TRUE
+         IN /\ IF ev.k = "e" /\ ev.j /\ ~Sound(ev) THEN Classify(o, i, st2, ev, o.nodes[ev.n]) ELSE TRUE
             /\ Fold(o, i + 1, st2)
 
 AllSound(o) == \A i \in 1..Len(o.ev) : o.ev[i].k = "e" /\ o.ev[i].j => Sound(o.ev[i])
